@@ -44,13 +44,21 @@ def run_variant(args):
         if ov is None:
             return name, "skipped", err
         mod = importlib.import_module("sa.rules." + prop.lower())
-        ctx = Ctx(repo.with_overlay(ov))
+        from ..core.unconfirmed import with_helpers_inlined, withdraw_by_second_pass, withdraw_unconfirmed
+        memo = {}
+
+        def make_ctx(overlay=None):
+            if overlay is not None:
+                memo["ov"] = overlay
+            o2 = dict(ov)
+            o2.update(memo.get("ov") or {})
+            return Ctx(repo.with_overlay(o2))
+        ctx = with_helpers_inlined(Ctx(repo.with_overlay(ov)), make_ctx)
         chk = Check(prop, "quick", ctx.repo, quiet=True)
-        from ..core.unconfirmed import withdraw_by_second_pass, withdraw_unconfirmed
         try:
             mod.run(ctx, chk)
             withdraw_unconfirmed(ctx, chk)
-            withdraw_by_second_pass(ctx, chk, mod, lambda: Ctx(repo.with_overlay(ov)))
+            withdraw_by_second_pass(ctx, chk, mod, lambda: make_ctx())
         except AnalysisError as e:
             chk.error(e.rule, e.reason)
             try:
